@@ -74,8 +74,7 @@ def sig9(x):
     return float("%.9g" % float(x))
 
 
-class Timeout(Exception):
-    pass
+Timeout = common.CaseTimeout
 
 
 def _alarm(*_args):
@@ -212,6 +211,134 @@ def run_milestones(case):
                drs=[[d[0], rat_str(d[1]), rat_str(d[2])] for d in case["drs"]],
                pos=[[k, v3(pos) if pos is not None else None] for k, pos in enumerate(case["refs"])])
     return dict(res=impl), req
+
+
+
+# ------------------------------------------------------------------------------------------ one trial step
+
+def _wrap(x, l):
+    x, l = fractions.Fraction(x), fractions.Fraction(l)
+    return x - l * (x / l).__floor__()
+
+
+def _mi_sq(a, b, box):
+    tot = fractions.Fraction(0)
+    for x, y, l in zip(a, b, box):
+        d = _wrap(fractions.Fraction(x) - fractions.Fraction(y), l)
+        d = min(d, fractions.Fraction(l) - d)
+        tot += d * d
+    return tot
+
+
+def case_accept(rng):
+    """ONE trial of the real `RandomWalk.update_positions` (a bundle of one vector, maxiter 0) for a residue with
+    region restraints, a growth-direction restriction and distance restraints, grown from a residue that
+    often sits next to a box face so that the trial step crosses it: which of the wrapped / unwrapped end point
+    each test looks at is then observable"""
+    box = [float(rng.choice([3, 4, 5, 6.5])) for _ in range(3)]
+    last = [dy(rng, 0, b - 0.125, 3) for b in box]
+    for k in range(3):
+        if rng.random() < 0.45:
+            last[k] = rng.choice([dy(rng, 0, 0.5, 3), box[k] - dy(rng, 0.125, 0.5, 3)])
+    while True:
+        vec = [rng.choice([-1.0, -0.5, 0.0, 0.0, 0.5, 1.0]) for _ in range(3)]
+        if any(vec):
+            break
+    length = rng.choice([0.5, 0.75, 1.0, 1.25])
+    step = [v * length for v in vec]
+    unwrapped = [a + b for a, b in zip(last, step)]
+    wrapped = [float(_wrap(u, b)) for u, b in zip(unwrapped, box)]
+    regions = []
+    for _ in range(rng.choice([0, 1, 1, 2])):
+        reg = gen_region(rng)
+        base = rng.choice([wrapped, unwrapped, unwrapped])
+        reg["c"] = [b + rng.choice([-1, -0.5, -0.25, 0, 0, 0.25, 0.5, 1]) for b in base]
+        reg["params"] = [rng.choice([0.25, 0.5, 0.75, 1.0, 1.5]) for _ in reg["params"]]
+        if reg["io"] not in ("in", "out"):
+            reg["io"] = rng.choice(["in", "out"])
+        regions.append(reg)
+    opt = None
+    if rng.random() < 0.35:
+        normal = [0.0, 0.0, 0.0]
+        normal[rng.randrange(3)] = rng.choice([-1.0, 1.0])
+        opt = dict(normal=normal, angle=rng.choice([60.0, 90.0, 120.0, 150.0]) * rng.choice([1, -1]))
+    ref, drs = None, []
+    if rng.random() < 0.4:
+        for _ in range(20):
+            cand = [dy(rng, 0, b - 0.125, 2) for b in box]
+            if _mi_sq(cand, wrapped, box) >= fractions.Fraction(1, 4) and _mi_sq(cand, last, box) >= fractions.Fraction(1, 4):
+                ref = cand
+                break
+        if ref is not None:
+            for _ in range(rng.randint(1, 2)):
+                lb = dy(rng, 0, 2.5, 2)
+                drs.append([2, lb + dy(rng, 0, 2.5, 2), lb])
+    return dict(stream="accept", box=box, last=last, vec=vec, length=length, regions=regions, opt=opt, ref=ref, drs=drs)
+
+
+def run_accept(case):
+    import numpy as np
+    import networkx as nx
+    import vermouth.forcefield
+    import vermouth.molecule
+    from polyply.src.meta_molecule import MetaMolecule
+    from polyply.src.random_walk import RandomWalk
+    from polyply.src.nonbond_engine import NonBondEngine
+    from polyply.src.linalg_functions import _vector_angle_degrees
+    box = np.array(case["box"], dtype=float)
+    positions = np.ones((3, 3)) * np.inf
+    positions[0] = case["last"]
+    if case["ref"] is not None:
+        positions[2] = case["ref"]
+    engine = NonBondEngine(positions, {(0, k): k for k in range(3)}, ["A"] * 3,
+                           {frozenset(["A"]): (case["length"], 1.0)}, {}, None, cut_off=1.0, boxsize=box)
+    graph = nx.Graph()
+    for i in range(3):
+        graph.add_node(i, resname="A", resid=i + 1)
+    graph.add_edges_from([(0, 1), (2, 0)])
+    ff = vermouth.forcefield.ForceField("verif")
+    meta = MetaMolecule(graph, force_field=ff, mol_name="m")
+    meta.molecule = vermouth.molecule.Molecule(force_field=ff, nrexcl=1)
+    meta.root = 0
+    if case["regions"]:
+        meta.nodes[1]["restraints"] = [real_region_params(r) for r in case["regions"]]
+    if case["opt"] is not None:
+        meta.nodes[1]["rw_options"] = [[np.array(case["opt"]["normal"], dtype=float), case["opt"]["angle"]]]
+    if case["drs"]:
+        meta.nodes[1]["distance_restraints"] = [tuple(d) for d in case["drs"]]
+    bundle = np.array([case["vec"]], dtype=float)
+    walker = RandomWalk(0, engine, maxdim=box, max_force=1e300, step_fudge=1.0, vector_sphere=bundle, maxiter=0)
+    walker.molecule = meta
+    status = bool(walker.update_positions(bundle, 1, 0))
+    row = engine.get_point(0, 1)
+    point = None if np.all(row == np.inf) else [rat_str(x) for x in row]
+    near = False
+    if case["opt"] is not None:
+        with np.errstate(invalid="ignore"):
+            ang = float(_vector_angle_degrees(np.array(case["opt"]["normal"], dtype=float), bundle[0] * case["length"]))
+        near = abs(ang - abs(case["opt"]["angle"])) < 1e-6 or math.isnan(ang)
+    step = [frac(v) * frac(case["length"]) for v in case["vec"]]
+    req = dict(op="accept", box=v3(case["box"]), last=v3(case["last"]), step=[rat_str(x) for x in step],
+               regions=[region_json(r) for r in case["regions"]],
+               opt=None if case["opt"] is None else rw_option_json(case["opt"]["normal"], case["opt"]["angle"]),
+               drs=[[d[0], rat_str(d[1]), rat_str(d[2])] for d in case["drs"]],
+               pos=[[0, v3(case["last"])], [2, v3(case["ref"]) if case["ref"] is not None else None]])
+    return dict(res=status, point=point), req, near
+
+
+def accept_oracle_requests(case, impl):
+    """the statement on the real outcome: an accepted residue satisfies its regions AT THE POSITION STORED FOR IT,
+    the step taken has the declared direction, and every distance restraint holds at the stored position"""
+    if not impl["res"] or impl["point"] is None:
+        return []
+    p = impl["point"]
+    reqs = [dict(op="spec_geom", p=p, regions=[region_json(r) for r in case["regions"]], eps=rat_str(EPS))]
+    for ref, ub, lb in case["drs"]:
+        reqs.append(dict(op="spec_window", a=p, b=v3(case["ref"]), box=v3(case["box"]),
+                         lo=rat_str(frac(lb) - EPS), hi=rat_str(frac(ub) + EPS)))
+    return reqs
+
+
 
 
 def case_tree(rng, nmax=9):
@@ -441,7 +568,7 @@ def build(desc, seed, timeout):
     np.random.seed(seed)
     random.seed(seed)
     old_handler = signal.signal(signal.SIGALRM, _alarm)
-    signal.setitimer(signal.ITIMER_REAL, timeout)
+    signal.setitimer(signal.ITIMER_REAL, timeout, 1.0)
     try:
         gc.gen_coords(toppath=Path(top), outpath=Path(gro), name="verif", build=[Path(bld)],
                       box=np.array(desc["box"], dtype=float), cycles=list(desc.get("cycles", [])),
@@ -819,6 +946,7 @@ def predicate_cases(ctx):
     cases += [case_regions(rng) for _ in range(ctx.budget(150, 1500))]
     cases += [case_direction(rng) for _ in range(ctx.budget(120, 1200))]
     cases += [case_milestones(rng) for _ in range(ctx.budget(100, 1000))]
+    cases += [case_accept(rng) for _ in range(ctx.budget(300, 3000))]
     cases += [case_tree(rng, ctx.budget(9, 14)) for _ in range(ctx.budget(120, 1200))]
     cases += [case_arange(rng) for _ in range(ctx.budget(40, 300))]
     for n in list(range(3, 12)) + [rng.randint(12, ctx.budget(40, 120)) for _ in range(3)]:
@@ -848,6 +976,16 @@ def run_predicates(ctx, cases):
                 impl, req = run_milestones(case)
                 pending.append((case, [("milestones", impl, lambda a: dict(res=a["res"]))], 1))
                 reqs.append(req)
+            elif stream == "accept":
+                impl, req, near = run_accept(case)
+                if near:
+                    ctx.tally(direction_boundary_skipped=True)
+                    continue
+                extra = accept_oracle_requests(case, impl)
+                pending.append((case, [("accept", impl, lambda a: dict(res=a["res"], point=a["point"] if a["res"] else None))]
+                                + [("accept-oracle", None, None)] * len(extra), 1 + len(extra)))
+                reqs.append(req)
+                reqs += extra
             elif stream == "tree":
                 impl_tree, impl_set, rq = run_tree(case)
                 pending.append((case, [("tree", impl_tree, lambda a: dict(edges=a["edges"], closing=a["closing"])),
@@ -874,6 +1012,21 @@ def run_predicates(ctx, cases):
                 continue
             model = conv(ans) if ans.get("ok") or name == "setdr" else dict(error=ans.get("err"))
             ctx.correspond(name, impl, model, case)
+        if case["stream"] == "accept" and width > 1:
+            extra = answers[pos + 1:pos + width]
+            if not all(a.get("ok") for a in extra):
+                ctx.tie_broken("correspondence", "driver:accept-oracle", str(extra)[:300], case)
+            else:
+                if not all(extra[0]["each"]):
+                    ctx.oracle_fail("region_violated", "update_positions accepted %s for a residue whose region restraints %s "
+                                    "do not hold there (grown from %s by the step %s x %s in the box %s)"
+                                    % (parts[0][1]["point"], case["regions"], case["last"], case["vec"], case["length"],
+                                       case["box"]), case)
+                for (ref, ub, lb), ans in zip(case["drs"], extra[1:]):
+                    if not ans["res"]:
+                        ctx.oracle_fail("distance_window", "update_positions accepted %s although its distance to the "
+                                        "reference at %s is outside [%s, %s] (box %s)"
+                                        % (parts[0][1]["point"], case["ref"], lb, ub, case["box"]), case)
         pos += width
         stream = case["stream"]
         hist = {}
@@ -886,6 +1039,14 @@ def run_predicates(ctx, cases):
         elif stream == "milestones":
             hist = dict(milestones=len(case["drs"]), ms_accepted=parts[0][1]["res"])
             key = ("milestones", json.dumps(case, sort_keys=True)) if case["drs"] else None
+        elif stream == "accept":
+            lastp = [fractions.Fraction(x) for x in case["last"]]
+            unw = [a + fractions.Fraction(v) * fractions.Fraction(case["length"]) for a, v in zip(lastp, case["vec"])]
+            crosses = any(u < 0 or u >= fractions.Fraction(b) for u, b in zip(unw, case["box"]))
+            hist = dict(accept_crosses_face=crosses, accept_res=parts[0][1]["res"],
+                        accept_kinds="%d regions%s%s" % (len(case["regions"]), "+dir" if case["opt"] else "",
+                                                         "+dist" if case["drs"] else ""))
+            key = ("accept", json.dumps(case, sort_keys=True)) if (case["regions"] or case["opt"] or case["drs"]) else None
         elif stream == "tree":
             hist = dict(tree_dfs=case["dfs"], setdr=(parts[1][1] or {}).get("ok", "none"))
             key = ("tree", json.dumps(case, sort_keys=True))
